@@ -30,6 +30,7 @@ import Proofs.CommuteAround
 import Proofs.CommuteAroundDocs
 import Proofs.CommuteAroundMarkup
 import Proofs.CommuteAroundSuccess
+import Proofs.CommuteAroundAgain
 namespace PM.C17
 open PM
 
@@ -1159,5 +1160,73 @@ theorem commute_succeeds_around (S : Schema) (d da db : Node) (f t gf gt ins f1 
   rcases hg with ⟨h, hg⟩ | ⟨h, hg⟩
   · exact commute_succeeds_around_before S d da db f t gf gt ins f1 t1 sl s1 st b1 hn hsn1 hsn hs h ha hb hg
   · exact commute_succeeds_around_after S d da db f t gf gt ins f1 t1 sl s1 st b1 hn hsn1 hsn hs h ha hb hg
+
+/-! ### both rebased orders apply — two replace-around steps, one after the other
+
+A replace-around step that applies *is* a plain replace of `[from, to)` by its filled slice
+(`around_as_replace`, Proofs/CommuteAroundAgain.lean), so `commute_succeeds_replace` gives the two rebased
+plain replaces; each is again the replace-around step it came from because the partner only touched tokens
+outside `[from, to]` (`around_again_same`, `around_again_shifted`: the gap is cut again as the same closed
+slice, the structure checks read the same tokens).  The guard is `commuteGuard` on `(from, to, slice)` of
+both steps (the filled slices have the open-start depths of the steps' slices).  False without a guard
+(`commute_around_around_needs_guard` below). -/
+
+theorem apply_replace_norm (S : Schema) (d da : Node) (f t : Nat) (sl : Slice) (b : Bool)
+    (hn : fnorm d.kids = true) (hsn : fnorm sl.content = true)
+    (ha : S.apply (.replace f t sl b) d = .ok da) : fnorm da.kids = true := by
+  obtain ⟨ty, a, m, K, Ka, rfl, rfl, hr⟩ := fromReplace_elem S d da f t sl
+    (apply_replace_fromReplace S d da f t sl b ha)
+  exact replaceKids_norm S ty K f t sl Ka hn hsn hr
+
+/-- **two replace-around steps, the second one strictly after the first one (`to < from'`), one of them inside a
+    node the other one does not touch** (`commuteGuard` on `(from, to, slice)` of both): neither rebased step
+    is dropped, both orders apply, and they give the same document -/
+theorem commute_succeeds_around_around (S : Schema) (d da db : Node)
+    (f t gf gt ins f' t' gf' gt' ins' : Nat) (sl sl' : Slice) (st st' : Bool)
+    (hn : fnorm d.kids = true) (hsn : fnorm sl.content = true) (hsn' : fnorm sl'.content = true)
+    (hs : AroundShape f t gf gt sl ins) (hs' : AroundShape f' t' gf' gt' sl' ins') (hsep : t < f')
+    (ha : S.apply (.replaceAround f t gf gt sl ins st) d = .ok da)
+    (hb : S.apply (.replaceAround f' t' gf' gt' sl' ins' st') d = .ok db)
+    (hg : commuteGuard d.kids f t sl f' t' sl' = true) :
+    ∃ A' B' dab,
+      (Step.replaceAround f t gf gt sl ins st).map
+        (Step.replaceAround f' t' gf' gt' sl' ins' st').getMap = some A' ∧
+      (Step.replaceAround f' t' gf' gt' sl' ins' st').map
+        (Step.replaceAround f t gf gt sl ins st).getMap = some B' ∧
+      S.apply B' da = .ok dab ∧ S.apply A' db = .ok dab := by
+  obtain ⟨gap, I, hgap, ho1, ho2, hinst, ha2, hio, hin, hisz, hl⟩ :=
+    around_as_replace S d da f t gf gt ins sl st hn hsn hs ha
+  obtain ⟨gap', I', hgap', ho1', ho2', hinst', hb2, hio', hin', hisz', hl'⟩ :=
+    around_as_replace S d db f' t' gf' gt' ins' sl' st' hn hsn' hs' hb
+  have hgo := hs.2.2
+  have hgo' := hs'.2.2
+  have hg' : commuteGuard d.kids f t I f' t' I' = true := by
+    rw [commuteGuard_openStart _ _ _ _ _ sl sl' I I' hio hio']; exact hg
+  obtain ⟨a', b', dab, hb', ha', hab, hba⟩ := commute_succeeds_replace S d da db f t f' t' I I'
+    false false hn hin hin' hsep ha2 hb2 hg'
+  obtain ⟨hda, _, _, hleni⟩ := apply_replace_splice S d da f t I false ha2
+  obtain ⟨hdb, _, _, _⟩ := apply_replace_splice S d db f' t' I' false hb2
+  obtain ⟨r1, r2⟩ := rebase_separated_after f t f' t' I I' false false (by omega) (by omega) hsep (by omega)
+  rw [r1] at hb'; rw [r2] at ha'
+  simp only [Option.some.injEq] at hb' ha'
+  subst hb' ha'
+  have hna := apply_replace_norm S d da f t I false hn hin ha2
+  have hnb := apply_replace_norm S d db f' t' I' false hn hin' hb2
+  obtain ⟨e1, e2⟩ := (rebase_around_around f t gf gt ins f' t' gf' gt' ins' sl sl' st st' hgo hgo').1 hsep
+  refine ⟨_, _, dab, e1, e2, ?_, ?_⟩
+  · have n : ∀ p : Nat, t < p →
+        ((p : Int) + (((ins : Int) - ((gf : Int) - f)) + (sl.size - ins - ((t : Int) - gt)))).toNat =
+          f + I.toks.length + (p - t) := by
+      intro p hp; omega
+    have n' : ∀ p : Nat, t < p → ((p : Int) + I.size - ((t : Int) - f)).toNat = f + I.toks.length + (p - t) := by
+      intro p hp; omega
+    rw [n f' (by omega), n t' (by omega), n gf' (by omega), n gt' (by omega)]
+    have hfr := apply_replace_fromReplace S da dab _ _ I' false hab
+    rw [n' f' (by omega), n' t' (by omega)] at hfr
+    exact around_again_shifted S d da db dab f' t' gf' gt' ins' f t sl' I.toks st' gap' I' hn hna hgo' hsep
+      (by omega) hl' hda hb hgap' ho1' ho2' hinst' hfr
+  · have hfr := apply_replace_fromReplace S db dab _ _ I false hba
+    exact around_again_same S d db da dab f t gf gt ins f' t' sl I'.toks st gap I hn hnb hgo hsep
+      (by omega) hl' hdb ha hgap ho1 ho2 hinst hfr
 
 end PM.C17
